@@ -8,9 +8,12 @@ FINE = st.one_of(QUARTERS, QUARTERS, st.integers(0, 2048).map(lambda k: k / 1024
 
 
 @st.composite
-def programs(draw, kinds=("mutex",), max_actors=5, max_ops=10, max_mutex=3, max_sem=3, max_cond=2, max_bar=2):
-    """kinds: subset of mutex, sem, cond, barrier.  Returns a scenario (platform = one host with enough cores)."""
-    nact = draw(st.integers(2, max_actors)) if "barrier" not in kinds else draw(st.integers(1, max_actors))
+def programs(draw, kinds=("mutex",), max_actors=5, max_ops=10, max_mutex=3, max_sem=3, max_cond=2, max_bar=2, mc=False,
+             min_actors=2, profile="uniform"):
+    """kinds: subset of mutex, sem, cond, barrier, mailbox, random.  Returns a scenario (platform = one host with enough cores).
+    mc=True: only operations of the reference interleaving semantics (vf/refsem.py): no observation of kernel state, no timed
+    semaphore acquisition, positive condition-variable timeouts only."""
+    nact = draw(st.integers(min_actors, max_actors)) if ("barrier" not in kinds or profile == "contention") else draw(st.integers(1, max_actors))
     objects = {}
     rec = []
     if "mutex" in kinds or "cond" in kinds:
@@ -35,16 +38,33 @@ def programs(draw, kinds=("mutex",), max_actors=5, max_ops=10, max_mutex=3, max_
     if "barrier" in kinds:
         bars = [draw(st.integers(1, 6)) for _ in range(draw(st.integers(1, max_bar)))]
         objects["barrier"] = bars
+    nmb = 0
+    if "mailbox" in kinds:
+        nmb = draw(st.integers(1, 2))
+        objects["mailbox"] = nmb
     choices = ["sleep"]
     if "mutex" in kinds:
-        choices += ["lock", "lock", "unlock", "unlock", "try", "try", "owner"]
+        choices += ["lock", "lock", "unlock", "unlock", "try", "try"] + ([] if mc else ["owner"])
     if "sem" in kinds:
-        choices += ["acquire", "acquire_timeout", "acquire_timeout", "release", "release", "capacity", "would_block"]
+        choices += ["acquire", "release", "release"] + ([] if mc else ["acquire_timeout", "acquire_timeout", "capacity", "would_block"])
+    if "mailbox" in kinds:
+        choices += ["put", "get", "put", "get"]
+    if "random" in kinds:
+        choices += ["mc_random"]
     if "cond" in kinds:
         choices += ["cv_wait", "cv_wait_for", "cv_wait_for", "notify_one", "notify_all", "notify_locked"]
     if "barrier" in kinds:
         choices += ["barrier", "barrier", "barrier"]
+    if profile == "contention":
+        # few objects, many operations whose RESULT depends on the interleaving (try_lock, timed condvar waits, who receives what)
+        choices = [c for c in choices if c not in ("sleep", "barrier", "mc_random")]
+        choices = choices + [c for c in choices if c in ("try", "put", "get", "cv_wait_for", "notify_one")] * 2 + ["sleep"]
+        if "barrier" in kinds:
+            choices += ["barrier"]
+        if "random" in kinds:
+            choices += ["mc_random"]
     actors = []
+    role = {}
     for ai in range(nact):
         ops = []
         held = {}
@@ -75,9 +95,11 @@ def programs(draw, kinds=("mutex",), max_actors=5, max_ops=10, max_mutex=3, max_
                 if rec[m] and draw(st.booleans()):
                     # recursion through a mix of try_lock and lock: lock again, then give both back
                     ops.append(["lock", m])
-                    ops.append(["owner", m])
+                    if not mc:
+                        ops.append(["owner", m])
                     ops.append(["unlock", m])
-                    ops.append(["owner", m])
+                    if not mc:
+                        ops.append(["owner", m])
                 ops.append(["unlock_if", m, ntry])
                 ntry += 1
             elif k == "owner":
@@ -101,9 +123,12 @@ def programs(draw, kinds=("mutex",), max_actors=5, max_ops=10, max_mutex=3, max_
                     ops.append(["lock", m])
                 if k == "cv_wait":
                     ops.append(["cv_wait", c])
+                elif mc:
+                    ops.append(["cv_wait_for", c, draw(st.integers(1, 8).map(lambda k: k / 4))])
                 else:
                     ops.append(["cv_wait_for", c, draw(st.one_of(QUARTERS, QUARTERS, FINE))])
-                ops.append(["owner", m])
+                if not mc:
+                    ops.append(["owner", m])
                 if not own:
                     ops.append(["unlock", m])
             elif k in ("notify_one", "notify_all"):
@@ -118,10 +143,55 @@ def programs(draw, kinds=("mutex",), max_actors=5, max_ops=10, max_mutex=3, max_
                             ["sleep", draw(QUARTERS)], ["unlock", m]]
             elif k == "barrier":
                 ops.append(["barrier", draw(st.integers(0, len(bars) - 1))])
+            elif k in ("put", "get"):
+                mb = draw(st.integers(0, nmb - 1))
+                if profile == "contention" and role.setdefault((ai, mb), k) != k:
+                    continue     # an actor is either a sender or a receiver of a mailbox (a blocking put to oneself never ends)
+                ops.append(["put", mb, 0, {}] if k == "put" else ["get", mb, {}])
+            elif k == "mc_random":
+                ops.append(["mc_random", 0, draw(st.integers(1, 2))])
         # give back what is still held, most of the time
-        if draw(st.integers(0, 4)) > 0:
+        if draw(st.integers(0, 4)) < 4:     # (0 = the value Hypothesis prefers = give everything back)
             for m in sorted(held):
                 for _ in range(held[m]):
                     ops.append(["unlock", m])
         actors.append({"name": "a%d" % ai, "host": "h0", "ops": ops})
+    if profile == "contention":
+        # make complete executions likely: balance puts and gets, size each barrier to its callers, avoid unserved waits
+        for mb in range(nmb):
+            np_ = sum(1 for a in actors for o in a["ops"] if o[0] == "put" and o[1] == mb)
+            ng = sum(1 for a in actors for o in a["ops"] if o[0] == "get" and o[1] == mb)
+            need = "get" if np_ > ng else "put"
+            for _ in range(abs(np_ - ng)):
+                cands = [i for i in range(nact) if role.get((i, mb), need) == need]
+                if not cands:
+                    break
+                ti = cands[draw(st.integers(0, len(cands) - 1))]
+                role[(ti, mb)] = need
+                actors[ti]["ops"].append(["get", mb, {}] if need == "get" else ["put", mb, 0, {}])
+        for b in range(len(bars)):
+            seen = 0
+            for a in actors:
+                first = True
+                keep = []
+                for o in a["ops"]:
+                    if o[0] == "barrier" and o[1] == b:
+                        if not first:
+                            continue
+                        first = False
+                        seen += 1
+                    keep.append(o)
+                a["ops"] = keep
+            objects["barrier"][b] = max(1, seen)
+        for a in actors:
+            for o in a["ops"]:
+                if o[0] == "cv_wait" and draw(st.integers(0, 3)) > 0:
+                    o[0] = "cv_wait_for"
+                    o.append(1.0)
+        if sems:
+            for si in range(len(sems)):
+                na = sum(1 for a in actors for o in a["ops"] if o[0] == "acquire" and o[1] == si)
+                nr = sum(1 for a in actors for o in a["ops"] if o[0] == "release" and o[1] == si)
+                if objects["sem"][si] + nr < na:
+                    objects["sem"][si] = na - nr
     return {"platform": s4u.sync_platform(1, cores=8), "objects": objects, "actors": actors, "quiet": ["adv", "act"]}
